@@ -624,6 +624,9 @@ def event_inputs_to_events(
                     ]
                 )
             )
+        if event.event_sets:
+            # logic gate tree must be calculated from the loaded event sets
+            event._update_since_logic_gate_tree = True
         for eventSetList in eventInput.incomingEventSets:
             event.in_event_sets.add(
                 EventSet(
